@@ -61,6 +61,18 @@ CLAIMS = {
              "The lora_race script family raises events at chosen transfer indices of a running handler on the real driver.",
         technique="Lean 4 program-shape theorems + W1C chip lemma + event injection between SPI transfers",
         design="7 C07"),
+    'C10': dict(
+        text="Proof. Theorems Sx.C10_gated (each of the 39 modulation-specific functions, called while another modulation is active, IS the "
+             "program that returns INVALID_STATE at once: no request at all, handle untouched, for every argument and handle), "
+             "C10_rejected_call_has_no_effect (every public function except create [C17] and the void handler, every argument, every handle, every "
+             "chip state agreeing with the handle on the LoRa page: a return of INVALID_ARG/INVALID_STATE implies no write request and an unchanged "
+             "handle) and C10_cached (the same in the cached build after any admissible history, through C01+C02). The refusal theorem is proved "
+             "per function by a calculus for healthy-bus executions that is demonic in the chip's answers (a validation phase that writes nothing "
+             "and leaves the handle, then a commit phase that cannot refuse); the two LDRO setters, whose read-back could refuse after a write "
+             "for an arbitrary answer, use the chip semantics and C13 instead. 'Valid arguments are accepted' is covered by correspondence and by "
+             "the acceptance monitors of C09/C13/C15 only.",
+        technique="Lean 4 program-equality theorem for gating + two-phase (validate/commit) proof per function over demonic chip answers + trace monitors",
+        design="7 C10"),
     'C13': dict(
         text="Proof. Theorems Sx.C13_set_bandwidth, C13_set_spreading_factor, C13_override and their liftings to the cached build after any "
              "history (C13_bandwidth_cached, C13_spreading_factor_cached, via the bridge step_cached_of_wp = C02 + C01): for each of the ten "
